@@ -228,6 +228,8 @@ def circuitRun (env : Env K) (p : Params) (alpha : K) (betas : List K)
   if numPhases ≠ pf.numCommits then throw .build
   if numPhases ≠ pf.numPow then throw .build
   if logArities.length ≠ numPhases then throw .build
+  -- fixes/C07-2: a phase with `log_arity = 0` is rejected (native `checked_log_arity`)
+  if logArities.any (· = 0) then throw .build
   if pf.queries.isEmpty then throw .build
   if betas.isEmpty then throw .build
   for q in pf.queries do
